@@ -364,8 +364,10 @@ impl DefragmenterInner {
         let mut lowest_queue_index: usize = 0;
         let mut idle_queue = None;
         for (i, queue) in self.queues.iter().enumerate() {
-            // If we found an existing queue for this stream_offset use it
-            if queue.stream_offset == frame.header.stream_offset {
+            // If we found an existing queue for this stream_offset use it. A queue that has never been
+            // used holds no packet: its u64::MAX marker must not capture the packet that really
+            // starts at stream offset u64::MAX.
+            if queue.used && queue.stream_offset == frame.header.stream_offset {
                 // need use index access, otherwise rust can't prove we have unique access
                 return Some(&mut self.queues[i]);
             }
@@ -436,6 +438,8 @@ struct DefragQueue {
     last_frame_offset: Option<u16>,
     /// Whether the queue is idle and can be used by a new packet.
     idle: bool,
+    /// Whether the queue has ever been initialized for a packet.
+    used: bool,
 }
 impl DefragQueue {
     fn new() -> Self {
@@ -448,6 +452,7 @@ impl DefragQueue {
             expected_frames: None,
             last_frame_offset: None,
             idle: true,
+            used: false,
             next_frame_offset: 0,
         }
     }
@@ -459,6 +464,7 @@ impl DefragQueue {
         self.final_packet_size = None;
         self.expected_frames = None;
         self.idle = false;
+        self.used = true;
         self.stream_offset = frame.header.stream_offset;
     }
 
